@@ -289,7 +289,7 @@ def apply_worker(part, cells, codes):
                 a5 = s(frac)
                 d3 = np.abs(a3 - want).max()
                 part.dev("apply3_abs", d3)
-                if a3.shape != (len(frac), 3) or d3 > 1e-12:
+                if a3.shape != (len(frac), 3) or not (d3 <= 1e-12):
                     part.fail("apply3:%d" % code, "apply on (N,3) of %s deviates %g from the exact image" % (symm.canonical_string(op), d3), case)
                 if a4.shape[0] != len(frac) or not (np.abs(a4[:, :3] - want).max() <= 1e-12) or (a4.shape[1] == 4 and not (np.abs(a4[:, 3] - 1).max() <= 0)):
                     part.fail("apply4:%d" % code, "apply on homogeneous (N,4) of %s disagrees with (N,3)" % symm.canonical_string(op), case)
@@ -298,7 +298,7 @@ def apply_worker(part, cells, codes):
                 got = cart @ Rc + tc
                 dc = np.abs(got - want @ M).max() / scale
                 part.dev("cartesian_rel", dc)
-                if dc > 1e-10:
+                if not (dc <= 1e-10):
                     part.fail("cartesian:%d" % code, "Cartesian form of %s in cell %s deviates (rel %g) from frac->apply->cart"
                               % (symm.canonical_string(op), cell, dc), case)
                 part.outcome(("apply", code % 7))
